@@ -147,6 +147,7 @@ type runner interface {
 	name() string
 	shards() int
 	cases() int
+	quickCases() int
 	timeout() time.Duration
 	replay(raw json.RawMessage) (error, *Rec)
 	search(seed uint64, n int, curFile string) partial
@@ -166,11 +167,13 @@ type partial struct {
 	FailSig     string            `json:"fail_sig,omitempty"`
 	Flaky       bool              `json:"flaky,omitempty"`
 	Exhaustive  bool              `json:"exhaustive,omitempty"`
+	BudgetStop  int               `json:"budget_stop,omitempty"` // requested cases not run because the wall budget of the spec was used up
 }
 
 func (p *partial) merge(q partial) {
 	p.Evaluations += q.Evaluations
 	p.Requested += q.Requested
+	p.BudgetStop += q.BudgetStop
 	if p.NT == nil {
 		p.NT = map[string]bool{}
 	}
@@ -206,6 +209,7 @@ func (s *Spec[C]) shards() int {
 	}
 	return s.Shards
 }
+func (s *Spec[C]) quickCases() int { return s.Quick }
 func (s *Spec[C]) cases() int {
 	n := s.Quick
 	if Tier() == "thorough" {
@@ -232,6 +236,23 @@ func (s *Spec[C]) timeout() time.Duration {
 		return 6 * time.Hour
 	}
 	return 20 * time.Minute
+}
+
+// budget is the wall-clock budget of one spec's search phase.  When it is used up the
+// remaining requested cases are not generated (counted in the evidence as
+// not_run_wall_budget); running out of budget is never a failure, but a run that got
+// through less than a quarter of the quick case count is reported as inconclusive.
+// VERIF_BUDGET_S overrides (0 = none); defaults: quick 8 min, thorough 20 min per spec.
+func budget() time.Duration {
+	if v := os.Getenv("VERIF_BUDGET_S"); v != "" {
+		if n, err := strconv.Atoi(v); err == nil {
+			return time.Duration(n) * time.Second
+		}
+	}
+	if Tier() == "thorough" {
+		return 20 * time.Minute
+	}
+	return 8 * time.Minute
 }
 
 // safeRun executes Run converting panics into failures.
@@ -380,7 +401,12 @@ func (s *Spec[C]) search(seed uint64, n int, curFile string) partial {
 		failing     bool
 	)
 	tb := &recTB{}
+	began, bud := time.Now(), budget()
 	prop := func(t *rapid.T) {
+		if bud > 0 && !failing && time.Since(began) > bud {
+			p.BudgetStop++
+			return
+		}
 		c := s.Gen(t)
 		if curFile != "" {
 			if js, err := json.Marshal(c); err == nil {
@@ -656,7 +682,14 @@ func (s *Suite) Main(t *testing.T) {
 		if sp.Requested > 0 {
 			allExh = false
 		}
-		if sp.Evaluations < sp.Requested && sp.FailCase == nil && sp.FailMsg == "" {
+		if sp.BudgetStop > 0 {
+			out("note: spec %s stopped by its wall budget (%v) after %d of %d requested cases", r.name(), budget(), sp.Evaluations, sp.Requested)
+			if floor := r.quickCases() / 4; sp.Evaluations < floor && sp.FailCase == nil && sp.FailMsg == "" {
+				out("note: that is fewer than %d cases (a quarter of the quick count)", floor)
+				inconclusive = true
+			}
+		}
+		if sp.Evaluations+sp.BudgetStop < sp.Requested && sp.FailCase == nil && sp.FailMsg == "" {
 			out("note: spec %s executed %d of %d requested cases", r.name(), sp.Evaluations, sp.Requested)
 			inconclusive = true
 		}
@@ -696,6 +729,12 @@ func (s *Suite) Main(t *testing.T) {
 		specCov[n] = map[string]any{
 			"evaluations": p.Evaluations, "distinct_nontrivial": len(p.NT),
 			"labels": p.Labels, "excluded_by_known_findings": p.Excluded,
+		}
+		if p.Requested > 0 {
+			specCov[n].(map[string]any)["requested"] = p.Requested
+		}
+		if p.BudgetStop > 0 {
+			specCov[n].(map[string]any)["not_run_wall_budget"] = p.BudgetStop
 		}
 		for i, sm := range p.Samples {
 			if i < 2 {
